@@ -33,7 +33,7 @@ for pid in sorted(props):
     else:
         reason = na.get(pid, '')
         if isinstance(reason, dict): reason = reason.get('reason', '')
-        rows.append('| %s | %s | not applicable | - | - | - |' % (pid, title))
+        rows.append('| %s | %s | %s | - | - | - |' % (pid, title, 'not claimed yet (listed under not_applicable with that reason)' if str(reason).startswith('not claimed yet') else 'not applicable'))
 status = '\n'.join(rows) + '\n'
 srows = ['| seed | changed function | what the change breaks | caught by |', '|---|---|---|---|']
 for pid in sorted(seeds):
